@@ -52,6 +52,10 @@ PARTS = {
 }
 
 
+ANCHOR_COVERAGE_NOTE = ('coverage round 2026-09-26 (quick case set, seed 0, in-process, line+branch): krylov_based.py 93% -> 99%, '
+                        'sparse.py 72% -> 96%, together 84% -> 97%. See notes/C16.md, section Coverage round.')
+
+
 def gen_cases(rng, n, exact_fraction=0.4):
     cases = []
     for _ in range(n):
@@ -111,6 +115,7 @@ def shrink_case(case, sigs):
 
 def run_cases(ctx, cases, use_model=True, procs=1):
     res = core.Result()
+    res.extra['anchor_coverage_note'] = ANCHOR_COVERAGE_NOTE
     if procs > 1:
         with mp.Pool(procs) as pool:
             evals = pool.map(_eval, cases, chunksize=8)
